@@ -232,6 +232,64 @@ def check_program(files: Dict[str, str], modules: List[str], label: List[str], t
     return uniq
 
 
+def check_cycle(t: Tally) -> List[Tuple[str, str, str]]:
+    """Packages that import each other in a cycle (every package refers to types of every other):
+    under every option set every package must be importable FIRST (each order from a clean slate)."""
+    out: List[Tuple[str, str, str]] = []
+    pkgs = ["a", "b", "a.b"]
+    files, _ = c13.all_program(pkgs, alias_fields=False)  # (alias-named fields + pydantic: a recorded finding)
+    out += _cycle_program(files, pkgs, "Ref", t)
+    # file graph acyclic, package graph cyclic, and the message referenced across the cycle refers on
+    two = {"x/one.proto": 'syntax = "proto3";\npackage x;\nimport "y/one.proto";\nmessage A { y.B b = 1; int32 id = 2; }\n',
+           "y/one.proto": 'syntax = "proto3";\npackage y;\nmessage B { int32 n = 1; }\n',
+           "y/two.proto": 'syntax = "proto3";\npackage y;\nimport "x/one.proto";\nmessage C { x.A a = 1; }\n'}
+    out += _cycle_program(two, ["x", "y"], None, t)
+    three = {"z/one.proto": 'syntax = "proto3";\npackage z;\nmessage D { int32 n = 1; }\n',
+             "y/one.proto": 'syntax = "proto3";\npackage y;\nimport "z/one.proto";\nmessage B { z.D d = 1; repeated z.D ds = 2; }\n',
+             "x/one.proto": 'syntax = "proto3";\npackage x;\nimport "y/one.proto";\nmessage A { y.B b = 1; map<string, y.B> by = 2; }\n',
+             "z/two.proto": 'syntax = "proto3";\npackage z;\nimport "x/one.proto";\nmessage E { x.A a = 1; oneof o { x.A oa = 2; int32 i = 3; } }\n'}
+    out += _cycle_program(three, ["x", "y", "z"], None, t)
+    seen, uniq = set(), []
+    for o, v, d in out:
+        if (o, v) not in seen:
+            seen.add((o, v))
+            uniq.append((o, v, d))
+    return uniq
+
+
+def _cycle_program(files: Dict[str, str], pkgs: List[str], only_class, t: Tally) -> List[Tuple[str, str, str]]:
+    out: List[Tuple[str, str, str]] = []
+    for vname, opts in VARIANTS:
+        res = compile_variant(files, opts)
+        t.inc("programs")
+        try:
+            if res.rc != 0:
+                out.append(("plugin-failed", vname, res.stderr[-300:]))
+                continue
+            for first in pkgs:
+                res.forget_imports()
+                order = [first] + [p for p in pkgs if p != first]
+                try:
+                    for p in order:
+                        mod = res.module(p)
+                        for cname, cls in sorted(vars(mod).items()):
+                            if not (isinstance(cls, type) and issubclass(cls, betterproto.Message) and cls.__module__ == mod.__name__):
+                                continue
+                            if only_class and cname != only_class:
+                                continue
+                            inst = sample_instance(cls, 2, "base")
+                            if cls().parse(bytes(inst)) != inst:
+                                raise AssertionError(f"{cname} does not round-trip")
+                            cls().from_dict(inst.to_dict())
+                    t.inc("comparisons", len(order))
+                except Exception as e:
+                    out.append(("cycle-import-order", vname, f"importing {order} in this order: {type(e).__name__}: {e}"[:300]))
+                    break
+        finally:
+            res.cleanup()
+    return out
+
+
 def plan(tier: str):
     items: List[Tuple[str, Any]] = []
     for i, a in enumerate(AT.ATOMS):
@@ -246,6 +304,7 @@ def plan(tier: str):
     items.append(("xref+alias-field", ("a", "a.b.a")))
     items.append(("xref+alias-field", ("a.b", "a.a")))
     items.append(("multi", None))
+    items.append(("cycle", None))
     if tier == "thorough":
         names = [a.name for a in AT.ATOMS]
         for i, (x, y) in enumerate(AT.compatible_pairs(names)):
@@ -265,6 +324,10 @@ def run_item(kind: str, arg, t: Tally) -> List[Violation]:
         label = ["multi-file-program"]
         fails = check_program(files, list(AT.MULTI_PACKAGES), label, t)
         case = {"kind": "multi"}
+    elif kind == "cycle":
+        label = ["package-cycle"]
+        fails = check_cycle(t)
+        case = {"kind": "cycle"}
     else:
         # cross-package references; "xref+alias-field" additionally gives the referrer plain fields
         # named like the module aliases of the target package
@@ -324,6 +387,6 @@ def replay(case: dict) -> List[Violation]:
     t = Tally()
     if case["kind"] == "atoms":
         return run_item("atoms", (tuple(case["atoms"]), case["package"]), t)
-    if case["kind"] == "multi":
-        return run_item("multi", None, t)
+    if case["kind"] in ("multi", "cycle"):
+        return run_item(case["kind"], None, t)
     return run_item(case["kind"], (case["referrer"], case["target"]), t)
